@@ -18,7 +18,7 @@ RULES = {
     "R1": "closed guard first: in seek/set_frame_duration/set_padding/set_render_args/set_render_size the `if self._closed: raise "
           "FinalizedIteratorError` guard is the first statement; __next__ maps a finalized iterator to StopIteration",
     "R2": "reject without changing state: in those methods no store to self.* or to the render-data namespace lies on a path that can still "
-          "reach a `raise` statement (validate before mutate)",
+          "reach a `raise` statement (validate before mutate); a statement that constructs RenderArgs(...) (which raises IncompatibleRenderArgsError) counts as a validation step",
     "R3": "settings are read at render time: after the dummy yield, _iterate reads the mutable cells at the point of use (self._render_args, "
           "self._padding, self._padded_size, fields through the renderable-data namespace object the setters write into) - never a local/"
           "parameter snapshot taken before the yield; the first frame number is read from frame_offset after the dummy yield (a seek before "
